@@ -2,6 +2,7 @@ package vh
 
 import (
 	"bufio"
+	"context"
 	"encoding/json"
 	"flag"
 	"fmt"
@@ -28,6 +29,7 @@ type DispScenario struct {
 		Rdec  string            `json:"rdec"`
 		Wret  string            `json:"wret"`
 		Mtype string            `json:"mtype"`
+		Pre   string            `json:"pre"`
 	} `json:"cfg"`
 	Hooks   [][]string `json:"hooks"`
 	Chooks  [][]string `json:"chooks"`
@@ -89,7 +91,7 @@ func runDisp(rec *Rec, sc *DispScenario, n int) {
 	c := sc.Cfg
 	rec.SetTrace(sc.ID, map[string]interface{}{
 		"mode": "disp", "kind": c.Kind, "route": c.Route, "hout": c.Hout, "dec": c.Dec, "rdec": c.Rdec,
-		"vetopl": c.Veto[0], "vetostage": c.Veto[1], "vkind": c.Vkind, "wret": c.Wret, "mtype": c.Mtype,
+		"vetopl": c.Veto[0], "vetostage": c.Veto[1], "vkind": c.Vkind, "wret": c.Wret, "mtype": c.Mtype, "pre": c.Pre,
 		"exphooks": flat(sc.Hooks), "expchooks": flat(sc.Chooks),
 		"expinvoked": sc.Invoked, "expreplies": sc.Replies, "expcstat": sc.Cstat, "expdisc": sc.Disc, "expwritten": sc.Written,
 	})
@@ -182,6 +184,17 @@ func runDisp(rec *Rec, sc *DispScenario, n int) {
 	if c.Wret == "late" {
 		a.SetWriteReturnDelay(25 * time.Millisecond)
 	}
+	tapOut0, tapIn0 := 0, 0
+	if c.Pre == "deadlinewrite" {
+		// the serving session writes a message of its own under a context deadline; the deadline then passes
+		pctx, cancel := context.WithTimeout(context.Background(), 4*time.Millisecond)
+		ss.Push("/not/served/by/the/client", &Arg{Tag: "pre"}, erpc.WithContext(pctx))
+		time.Sleep(8 * time.Millisecond)
+		cancel()
+		// the frames of this preparation are not part of the observed exchange
+		o0, i0 := a.Tapped()
+		tapOut0, tapIn0 = len(o0), len(i0)
+	}
 	if c.Kind == "badtype" {
 		// a well-formed frame with a type byte the session does not serve, written straight onto the connection
 		mt := map[string]byte{"t0": 0, "t4": erpc.TypeAuthCall, "t5": erpc.TypeAuthReply, "t9": 9, "t255": 255}[c.Mtype]
@@ -239,6 +252,9 @@ func runDisp(rec *Rec, sc *DispScenario, n int) {
 		}
 	}
 	out, inb := a.Tapped()
+	if tapOut0 <= len(out) && tapIn0 <= len(inb) {
+		out, inb = out[tapOut0:], inb[tapIn0:]
+	}
 	fo, _ := ParseRawFrames(out)
 	fi, _ := ParseRawFrames(inb)
 	ncall, npush, nreply, nother := 0, 0, 0, 0
